@@ -399,7 +399,8 @@ class Mux2(Kind):
     def plan(self, rng, pool):
         a, w = pool.any()
         b, _ = pool.pick(w)
-        s, _ = pool.pick(1)
+        # "Only the LSB of the select signal is considered; higher bits are ignored" (docstring)
+        s, _ = pool.pick(1 if rng.random() < 0.9 else rng.choice([2, 3, 8]))
         return {}, [s, a, b], [w]
 
     def build(self, parent, nm, ins, outs, p):
@@ -1613,7 +1614,7 @@ class Sequence(SeqKind):
         return (i, v)
 
 
-def kinds_with(tag=None, seq=None, exclude=()):
+def kinds_with(tag=None, seq=None, exclude=(), include=None):
     out = []
     for k in KINDS.values():
         if tag is not None and tag not in k.tags:
@@ -1621,6 +1622,8 @@ def kinds_with(tag=None, seq=None, exclude=()):
         if seq is not None and k.seq != seq:
             continue
         if any(t in k.tags for t in exclude):
+            continue
+        if 'extra' in k.tags and tag != 'extra' and 'extra' not in (include or ()):
             continue
         out.append(k)
     return out
@@ -1663,3 +1666,57 @@ class DualPortSynchronousMemory(SeqKind):
         if web:
             mem = mem[:wb] + (wdb,) + mem[wb + 1:]
         return (mem, qa, qb, bad)
+
+
+# =========================================================================== extra kinds (Verilog-side campaigns only)
+
+@register
+class MsgSequencer(SeqKind):
+    """uart message sequencer with a hand-written Verilog body"""
+    name = 'MsgSequencer'
+    tags = ('seq', 'extra')
+
+    def plan(self, rng, pool):
+        n = rng.randint(2, 6)
+        return {'msg': ''.join(chr(rng.randint(32, 126)) for _ in range(n))}, [pool.pick(1)[0]], [1, 8]
+
+    def build(self, parent, nm, ins, outs, p):
+        from py4hw.logic.protocol.uart.sequencer import MsgSequencer as M_
+        return M_(parent, nm, ins[0], outs[0], outs[1], p['msg'])
+
+    def init(self, p, iw, ow):
+        return (0, 0, 0, 0)          # state, count, valid, v
+
+    def outs(self, p, st, iv, iw, ow):
+        return [st[2], st[3]]
+
+    def nxt(self, p, st, iv, iw, ow):
+        state, count, valid, v = st
+        ready = iv[0]
+        if state == 0:
+            if ready:
+                return (1, count, 1, v)
+            return (0, count, 0, v)
+        v = ord(p['msg'][count])
+        if ready == 0:               # "if ready was deactivated wait here"
+            return (1, count, 1, v)
+        return (0, (count + 1) % len(p['msg']), 0, v)
+
+
+@register
+class AsynchronousMemory(Kind):
+    """stateful propagatable; only built (Verilog-side campaigns), no reference model"""
+    name = 'AsynchronousMemory'
+    tags = ('extra', 'asyncmem')
+    stateless = False
+
+    def plan(self, rng, pool):
+        aw = rng.randint(1, 3)
+        dw = rng.choice([1, 4, 8])
+        return {}, [pool.pick(aw)[0], pool.pick(aw)[0], pool.pick(1)[0], pool.pick(dw)[0]], [dw]
+
+    def build(self, parent, nm, ins, outs, p):
+        return py4hw.AsynchronousMemory(parent, nm, ins[0], ins[1], ins[2], outs[0], ins[3])
+
+    def outs(self, p, st, iv, iw, ow):
+        raise NotImplementedError('AsynchronousMemory has no reference model')
